@@ -15,11 +15,13 @@ UNMAPPED = 3
 
 
 class IcDUT(Module):
-    def __init__(self, kind, nm, ns, register, timeout, dw=DW):
-        self.masters = [wishbone.Interface(data_width=dw, adr_width=AW) for _ in range(nm)]
+    def __init__(self, kind, nm, ns, register, timeout, dw=DW, adr_widths=None):
+        aws = list(adr_widths) if adr_widths else [AW]*nm          # masters of different address widths (narrower ones reach fewer windows)
+        self.masters = [wishbone.Interface(data_width=dw, adr_width=aws[m]) for m in range(nm)]
         self.slaves = [wishbone.Interface(data_width=dw, adr_width=AW) for _ in range(ns)]
-        regions = [SoCRegion(origin=16*j, size=16) for j in range(ns)]
-        dec = [(r.decoder(self.masters[0]), s) for r, s in zip(regions, self.slaves)]
+        regions = [SoCRegion(origin=16*j*(dw//8), size=16*(dw//8)) for j in range(ns)]
+        widest = self.masters[aws.index(max(aws))]
+        dec = [(r.decoder(widest), s) for r, s in zip(regions, self.slaves)]
         self.grant = None
         self.error = None
         if kind == "shared":
@@ -58,8 +60,9 @@ class WbIcHarness(Harness):
          ages[m]    = cycles the request of m has been on the arbitrated bus without termination (time-out runs)"""
 
     def __init__(self, name, kind, nm, ns, register=False, timeout=None, maxlat=2, unmapped=True, err=True, faults=False,
-                 back_to_back=True, decoded=True, cap=None, pauses=False, dw=DW):
+                 back_to_back=True, decoded=True, cap=None, pauses=False, dw=DW, adr_widths=None):
         self.name, self.kind, self.nm, self.ns = name, kind, nm, ns
+        self.adr_widths = list(adr_widths) if adr_widths else None
         self.dw, self.ones, self.selall = dw, (1 << dw) - 1, (1 << (dw//8)) - 1      # bus width: idle / time-out data is all-ones over the whole word
         self.register, self.timeout, self.maxlat = register, timeout, maxlat
         self.unmapped, self.err, self.fault_sw, self.b2b = unmapped, err, faults, back_to_back
@@ -77,7 +80,7 @@ class WbIcHarness(Harness):
         self.cov = dict(collisions=0, timeouts=0, expiry_coincidence=0, back_to_back=0, max_wait=0)
 
     def build(self):
-        self.dut = IcDUT(self.kind, self.nm, self.ns, self.register, self.timeout, self.dw)
+        self.dut = IcDUT(self.kind, self.nm, self.ns, self.register, self.timeout, self.dw, self.adr_widths)
         return self.dut
 
     def bind(self, D):
@@ -89,6 +92,9 @@ class WbIcHarness(Harness):
         self.error = D.i(d.error) if d.error is not None else None
         tg = list(range(self.ns)) + ([UNMAPPED] if (self.unmapped and self.decoded) else [])
         self.targets = tg
+        aws = self.adr_widths or [AW]*self.nm
+        self.amask = [(1 << a) - 1 for a in aws]
+        self.mtargets = [[t for t in tg if (t << 4) <= self.amask[m]] for m in range(self.nm)]     # what master m can address at all
 
     def env_init(self):
         return (tuple(("I", 0, 0, 0, 0) for _ in range(self.nm)), tuple((0, 0) for _ in range(self.ns)),
@@ -106,7 +112,7 @@ class WbIcHarness(Harness):
             else:
                 c = [("idle",)]
                 if ph == "I" or self.b2b:
-                    c += [("req", t, w) for t in self.targets for w in (0, 1)]
+                    c += [("req", t, w) for t in self.mtargets[m] for w in (0, 1)]
                 if ph == "T" and self.pauses:
                     c.append(("pause",))
                 per.append(c)
@@ -161,7 +167,7 @@ class WbIcHarness(Harness):
             elif r is None:
                 v[X["cyc"]] = v[X["stb"]] = 0
                 # idle garbage on the request lines
-                v[X["adr"]], v[X["we"]], v[X["dat_w"]], v[X["sel"]] = (1 << AW) - 1, 1, self.ones, self.selall
+                v[X["adr"]], v[X["we"]], v[X["dat_w"]], v[X["sel"]] = self.amask[m], 1, self.ones, self.selall
             else:
                 t, we, tag = r
                 adr = (t << 4) | (m << 1) | tag
